@@ -60,6 +60,13 @@ var scalars = []scalar{
 	{"float64", []string{"0", "1", "1.5", "0.1", "1e300", "5e-324", "1.7976931348623157e+308", "-0.000001", "123456789.125"}},
 	{"string", []string{`""`, `"a"`, `"\""`, `"\n"`, "\"`\"", `"\xff"`, `"é"`, `"a\x00b"`, `"%v @x'"`}},
 	{"vt.MyInt", []string{"0", "5", "-3"}},
+	{"vt.Level", []string{"0", "1", "5"}},
+	{"vt.Code", []string{"0", "404", "-1"}},
+	{"vt.Flags", []string{"0", "200"}},
+	{"vt.Label", []string{`""`, `"x"`}},
+	{"vt.Ratio", []string{"0", "0.25", "1.5"}},
+	{"vt.Switch", []string{"true", "false"}},
+	{"vt.Octal", []string{"0", "420", "8"}},
 	{"vt.MyString", []string{`""`, `"x"`}},
 	{"vt.MyBool", []string{"true", "false"}},
 	{"vt.MyFloat", []string{"1.5"}},
@@ -106,6 +113,7 @@ var elems = []elem{
 	{"uint8", "uint8(7)", "uint8(255)", "uint8(0)", false},
 	{"vt.MyInt", "vt.MyInt(5)", "vt.MyInt(6)", "vt.MyInt(0)", false},
 	{"vt.MyString", `vt.MyString("k")`, `vt.MyString("l")`, `vt.MyString("")`, false},
+	{"vt.Octal", "vt.Octal(420)", "vt.Octal(8)", "vt.Octal(0)", false},
 	{"vt.Inner", "vt.Inner{X: 1, Y: \"y\"}", "vt.Inner{X: 2}", "vt.Inner{}", true},
 	{"$L.LocalStruct", "$L.LocalStruct{A: 1}", "$L.LocalStruct{B: \"b\"}", "$L.LocalStruct{}", true},
 }
@@ -196,6 +204,9 @@ func values(thorough bool) []Val {
 	add("cvt.Box", "cvt.Box{In: vt.Inner{X: 1}, C: cvt.C(2)}")
 	add("map[cvt.C]vt.MyInt", "map[cvt.C]vt.MyInt{cvt.C(1): vt.MyInt(2)}")
 	add("[]cvt.Box", "[]cvt.Box{{}, {C: 3}}")
+	add("vt.Display", "vt.Display{L: 1, C: 404, F: 200, N: \"x\", R: 0.25, S: true, O: 420}")
+	add("vt.Display", "vt.Display{PL: ptr(vt.Level(2)), LS: []vt.Level{0, 1, 2}, M: map[vt.Level]vt.Octal{1: 420, 2: 8}}")
+	add("map[vt.Code]vt.Label", "map[vt.Code]vt.Label{404: \"nf\", -1: \"\"}")
 	// one value holding types with the same package name AND type name from two different packages
 	add("cvt.Twin", "cvt.Twin{Mine: cvt.Inner{Y: 1}, Theirs: vt.Inner{X: 2}, N: cvt.MyInt(3), M: vt.MyInt(4)}")
 	add("cvt.Twin", "cvt.Twin{Theirs: vt.Inner{X: 2}, Mine: cvt.Inner{Y: 1}, P: &cvt.Inner{Y: 5}, Q: &vt.Inner{X: 6}}")
@@ -227,6 +238,8 @@ func values(thorough bool) []Val {
 
 const vtSource = `package vt
 
+import "fmt"
+
 type (
 	MyInt    int
 	MyString string
@@ -234,6 +247,39 @@ type (
 	MyFloat  float64
 	MyUint8  uint8
 )
+
+// named scalars whose DISPLAY text is not their Go literal (String / Error / Format / GoString methods)
+type (
+	Level  int
+	Code   int64
+	Flags  uint8
+	Label  string
+	Ratio  float64
+	Switch bool
+	Octal  uint16
+)
+
+func (l Level) String() string  { return [...]string{"low", "mid", "high"}[l%3] }
+func (c Code) Error() string    { return fmt.Sprintf("code %d", int64(c)) }
+func (f Flags) Format(s fmt.State, verb rune) { fmt.Fprint(s, "flags!") }
+func (l Label) String() string  { return "<" + string(l) + ">" }
+func (r Ratio) String() string  { return fmt.Sprintf("%.0f%%", float64(r)*100) }
+func (s Switch) String() string { if s { return "on" }; return "off" }
+func (o Octal) String() string  { return fmt.Sprintf("%o", uint16(o)) }
+func (o Octal) GoString() string { return "octal" }
+
+type Display struct {
+	L  Level
+	C  Code
+	F  Flags
+	N  Label
+	R  Ratio
+	S  Switch
+	O  Octal
+	PL *Level
+	LS []Level
+	M  map[Level]Octal
+}
 
 type Inner struct {
 	X int
@@ -710,7 +756,7 @@ func replay(c *core.Ctx, raw json.RawMessage) {
 func init() {
 	core.Register(&core.Prop{
 		ID: "C10", Level: "model_checking", Run: run, Replay: replay, Shards: 4,
-		Rule:        "value model: every listed boundary value of every scalar type (bool, all int/uint kinds incl. uintptr, runes, float32/64 edge values, strings with quotes/newlines/backquotes/non-UTF-8/NUL, and every string of <=2 (3) characters over 16 special characters: quote, backslash, backquote, LF, CR, TAB, NUL, DEL, invalid byte, BOM, U+2028, NBSP, apostrophe, non-ASCII, astral), named scalars of two foreign packages and of the target package, a one-level pointer to each of them (and nil pointers); for 9 element types: nil/empty/1/3-element slices, arrays, pointers, pointers to slices, maps under 6 key types (string, int, bool, named string, array, struct) incl. two insertion orders of the same map; structs with zero and non-zero members of every field kind (pointer to zero struct, zero struct as map value / slice element, embedded, anonymous, cross-package, and values mixing types that share package name and type name across two packages); depth-2 containers. Each is rendered by snippet.Value in a compiled program, type-checked as `var got T = <text>` in the target package and compared at run time with the original (nil == empty); same text when rendered twice and for both insertion orders; the whole list is rendered in 4 sessions (files) of one process - same target, same target again, another target, the first target again - and sessions for the same target must agree in texts and registered imports; built with the map-order seam the sessions run under ascending / descending / rotated iteration of every map (reflect.MapKeys included). Non-trivial = composite/pointer values; states = distinct type shapes",
+		Rule:        "value model: every listed boundary value of every scalar type (bool, all int/uint kinds incl. uintptr, runes, float32/64 edge values, strings with quotes/newlines/backquotes/non-UTF-8/NUL, and every string of <=2 (3) characters over 16 special characters: quote, backslash, backquote, LF, CR, TAB, NUL, DEL, invalid byte, BOM, U+2028, NBSP, apostrophe, non-ASCII, astral), named scalars of two foreign packages and of the target package, named scalars with String/Error/Format/GoString methods (display text differs from the literal), a one-level pointer to each of them (and nil pointers); for 9 element types: nil/empty/1/3-element slices, arrays, pointers, pointers to slices, maps under 6 key types (string, int, bool, named string, array, struct) incl. two insertion orders of the same map; structs with zero and non-zero members of every field kind (pointer to zero struct, zero struct as map value / slice element, embedded, anonymous, cross-package, and values mixing types that share package name and type name across two packages); depth-2 containers. Each is rendered by snippet.Value in a compiled program, type-checked as `var got T = <text>` in the target package and compared at run time with the original (nil == empty); same text when rendered twice and for both insertion orders; the whole list is rendered in 4 sessions (files) of one process - same target, same target again, another target, the first target again - and sessions for the same target must agree in texts and registered imports; built with the map-order seam the sessions run under ascending / descending / rotated iteration of every map (reflect.MapKeys included). Non-trivial = composite/pointer values; states = distinct type shapes",
 		Assumptions: []string{"NaN/Inf, complex numbers, pointer map keys, func/chan/interface-typed members and unexported fields are outside the stated domain"},
 	})
 }
